@@ -3,7 +3,9 @@ from .pdb import strip, walk, loc, ancestors
 from .terms import Ctx, num, show, lin_add
 from .common import (P, F, SIZE, LEN, EQ, effects, callee_path, call_args, in_macro, rule_termination, effective_guards, facts_x,
                      is_zero_term, ctor_summary, loops_of)
-from .guards import for_range, facts, cond_atoms, norm_cmp
+from .guards import facts, cond_atoms, norm_cmp
+from .guards import for_range as raw_for_range
+from .common import for_range_total as for_range
 
 LEVEL = "other"
 PC = "polynomial::Polynomial<complex::Complex<f64>>"
@@ -137,6 +139,27 @@ def run(rep, pdb, tier):
                     "or allow-listed by name with a mathematical reason")
             status, why = classify(pdb, c2, fn, name, n, dn, d, nm, var)
             rep.add(key, rule, status, n, "divisor %s: %s" % (show(d, c2)[:80], why))
+    # ---- Cardano: the triple-root shortcut is taken only when d0 == 0 AND d1 == 0
+    cs = pdb.fn("%s::cubic_solve" % PC)
+    rule = "in cubic_solve the shortcut that returns one value three times is control-dependent on both discriminant quantities being zero (d0 == 0 && d1 == 0)"
+    if cs is None:
+        rep.missing("cardano-branch", rule, "cubic_solve not found")
+    else:
+        c3 = Ctx.for_fn(pdb, cs)
+        e3 = [e for e in effects(pdb, c3) if e.kind == "set"]
+        copies = [e for e in e3 if e.value[0] == "idx" and e.value[1] == e.target]      # roots[1] = roots[0]
+        okc = len(copies) == 2
+        det = "copy assignments=%d" % len(copies)
+        if okc:
+            fs = facts(c3, copies[0].node)
+            zs = [f for f in fs if f[0] == "cmp" and f[1] == "==" and (is_zero_term(f[2]) or is_zero_term(f[3]))]
+            tested = set()
+            for f in zs:
+                tested.add(f[3] if is_zero_term(f[2]) else f[2])
+            # d0 = b^2 - 3ac, d1 = 2b^3 - 9abc + 27a^2 d: two distinct tested quantities, both also used in the general branch
+            okc = len(tested) == 2
+            det = "shortcut guarded by %d zero tests" % len(tested)
+        rep.add("cardano-branch", rule, okc, copies[0].node if copies else cs["body"], det)
     # ---- polish
     rule = "refinement runs laguer on each poly_roots[j], j in 0..degree, against a clone of the undeflated coefficients that is never written"
     lag = pdb.fn("%s::laguer" % PC)
@@ -217,6 +240,8 @@ def classify(pdb, ctx, fn, name, node, dn, d, nm, var):
     # guarded
     fs = facts_x(pdb, ctx, node)
     for f in fs:
+        if f[0] == "ncmp" and f[1] == "<=" and f[2][0] == "call" and str(f[2][1]).endswith("::abs") and f[2][2] in (d, var):
+            return True, "dominated by the early return on `|%s| <= err`: past it |%s| > err >= 0 or the value is NaN, never zero" % (nm or "divisor", nm or "divisor")
         if f[0] != "cmp":
             continue
         a, b = f[2], f[3]
